@@ -135,7 +135,8 @@ class Excel:
 
     @classmethod
     def _get_suspicious_constructions(cls, value):
-        value = str(value)
+        # an array formula is examined by its formula text
+        value = value.text if isinstance(value, ArrayFormula) else str(value)
         # DOTALL: the argument list of a call may run over a line break
         suspicious_constructions = re.findall(r'[a-zA-Z_\d]+\(.*?\)', value, re.DOTALL)
         if suspicious_constructions:
